@@ -7,7 +7,7 @@ from unittest import mock
 import core
 
 PID = 'C14'
-MODULES = ['FFVerif.Proofs.C14']
+MODULES = ['FFVerif.Proofs.C14', 'FFVerif.Proofs.C14Balance']
 
 
 def fail(res, clause, api, case, out, sig=None):
